@@ -167,7 +167,13 @@ impl Stream for RtrListener {
                     this.server_metrics,
                 ) {
                     Ok(stream) => Poll::Ready(Some(Ok(stream))),
-                    Err(_) => Poll::Pending,
+                    Err(_) => {
+                        // This connection is gone but the listener is
+                        // still good. Since accepting was ready, nobody
+                        // will wake us, so ask to be polled again.
+                        ctx.waker().wake_by_ref();
+                        Poll::Pending
+                    }
                 }
             }
             Poll::Ready(Err(err)) => {
